@@ -583,9 +583,10 @@ impl Address {
                 let prefix_tail = if self.is_malformed() {
                     "_malformed"
                 } else {
-                    match self.network_id()? {
-                        id if id == NetworkInfo::testnet_preprod().network_id() => "_test",
-                        id if id == NetworkInfo::testnet_preview().network_id() => "_test",
+                    match self.network_id() {
+                        Ok(id) if id == NetworkInfo::testnet_preprod().network_id() => "_test",
+                        Ok(id) if id == NetworkInfo::testnet_preview().network_id() => "_test",
+                        // a Byron address with a protocol magic of no known network gets no suffix
                         _ => "",
                     }
                 };
